@@ -76,8 +76,13 @@ def write_sicd(meta, data, target, tmpdir, row_limit=None, chunks=None, order=No
         fo = open(path, 'w+b')
     w = SICDWriter(fo, sicd_writing_details=det, check_existence=False)
     for k, ci in enumerate(order):
-        a, b = chunks[ci]
-        w.write(data[a:b], start_indices=(a, 0))
+        if len(chunks[ci]) == 3:
+            # a strided chunk (every `step`-th row from a), addressed by subscript
+            a, b, step = chunks[ci]
+            w.write(data[a:b:step], subscript=(slice(a, b, step), slice(0, data.shape[1], 1)))
+        else:
+            a, b = chunks[ci]
+            w.write(data[a:b], start_indices=(a, 0))
         if k in flush_after:
             w.flush()
     w.close()
